@@ -241,8 +241,9 @@ func isZero(v ssa.Value) bool {
 }
 
 // V3: point-to-point pass-through.
-func ruleC03V3(c *Ctx, r *rbcModel) {
-	const rule = "C03.V3"
+func ruleC03V3(c *Ctx, r *rbcModel) { ruleC03V3Named(c, r, "C03.V3") }
+
+func ruleC03V3Named(c *Ctx, r *rbcModel, rule string) {
 	c.Rule(rule, "point-to-point hand-over passes exactly Receive's (m, from)", 1)
 	if len(r.p2pHandovers) == 0 {
 		c.Bad(rule, FuncName(r.receive), "p2p hand-over", "-", "no hand-over on the non-broadcast arm: point-to-point messages never reach the backend")
@@ -305,6 +306,17 @@ func (r *rbcModel) countingArgument(c *Ctx) string {
 				x, y := sc.Resolve(f.X), sc.Resolve(f.Y)
 				return (x == key && r.isSelfID(y)) || (y == key && r.isSelfID(x))
 			})
+			senderNotSelf := hasFact(facts, func(f Fact) bool {
+				if f.Op != token.NEQ {
+					return false
+				}
+				x, y := sc.Resolve(f.X), sc.Resolve(f.Y)
+				isS := func(v ssa.Value) bool { return r.isAckSender(v) || (sender != nil && strip(v) == sender) }
+				return (isS(x) && r.isSelfID(y)) || (isS(y) && r.isSelfID(x))
+			})
+			if !senderNotSelf {
+				return "premise failed: acknowledgements about this party's own messages are registered (N−1 peers can acknowledge a message this party never receives)"
+			}
 			if !neqSender {
 				return "premise failed: a voucher may be the sender itself"
 			}
